@@ -13,13 +13,15 @@ Sub-checks
             trailing comment with four texts) to every small tree; the result must not change
   comments  every literal form (and the one-column tables) x every shape of trailing comment (quote characters of both
             kinds followed by the end of the line / one word / several words, apostrophes, empty comment, '#', '=')
-  literals  every literal form of the alphabet (bool / int / float spellings / strings / none / inline, quoted and
+  literals  (through BOTH entry points, DIP.add_string and DIP.add_file)
+            every literal form of the alphabet (bool / int / float spellings / strings / none / inline, quoted and
             block arrays / tables) at root, below a group and behind a dotted name, with sentinel nodes around it
   pairs     (thorough) every ordered pair of a representative subset of the literals in one program
 
 Not demanded (left out of the alphabet): tab indentation, inconsistent sibling indentation, escapes inside strings,
 string arrays with single-quoted elements (arrays are specified as JSON), indented content lines of blocks, nodes
-below a table, comments or blank lines inside blocks, a quoted 'none', values starting with '{' or '(',
+below a table, comments inside blocks, a bare CR in a file (universal newlines), control characters inside JSON array
+items or bare values, a quoted 'none', values starting with '{' or '(',
 out-of-range integers for the declared width, negative values for unsigned types, '#' directly attached to a value.
 """
 import itertools
@@ -137,6 +139,10 @@ INSERTS = [
 TRAILS = [("T1", "note"), ("T2", "it's"), ("T3", 'say "hi"'), ("T4", "x = 1 # y"),
           ("T5", "key of the table 'users'"), ("T6", 'the "cities" table')]
 
+# characters at which str.splitlines() (but not DIP, where only "\n" ends a line) would break a line
+LINEBREAKERS = [("FF", "\x0c"), ("VT", "\x0b"), ("FS", "\x1c"), ("GS", "\x1d"), ("RS", "\x1e"), ("NEL", "\x85"),
+                ("LS", "\u2028"), ("PS", "\u2029"), ("CR", "\r")]
+
 # trailing comments of the `comments` sub-check: every shape of quote characters inside a comment (quote followed by
 # the end of the line, by one more word, by several words, at the start; apostrophes; both quote characters; empty)
 COMMENT_TEXTS = [
@@ -145,7 +151,7 @@ COMMENT_TEXTS = [
     "length in feet 5'", "lengths given in 'cm'",
     'say "hi"', 'key of the table "cities"', 'the "cities" table', '"quoted" first', 'size in inch 5"',
     "'a' and \"b\"", "\"a\" and 'b'",
-]
+] + ["c%sd e" % ch for _, ch in LINEBREAKERS]
 
 
 def single_decorations(n):
@@ -267,6 +273,12 @@ def scalar_literals():
             ('""quoted""', '"quoted"', "same-quote-inside"), ("''quoted''", "'quoted'", "same-quote-inside")]
     for t, v, tag in strs:
         out.append((("str", tag), "str", None, G.lit(t, v), None))
+    # quoted strings "can contain all characters" (docs, Format): characters that are line boundaries for
+    # str.splitlines() but not for DIP
+    for name, ch in LINEBREAKERS:
+        v = "p%sq r" % ch
+        out.append((("str", "single", "linebreaker:" + name), "str", None, G.lit("'" + v + "'", v), None))
+        out.append((("str", "double", "linebreaker:" + name), "str", None, G.lit('"' + v + '"', v), None))
     out.append((("str", "none"), "str", None, G.lit("none", None), None))
     return out
 
@@ -324,6 +336,23 @@ def array_literals():
                 G.lit(None, "Lorem ipsum dolor,\nsed do # eiusmod\n\"quoted\" and 'single'", "str",
                       block=["Lorem ipsum dolor,", "sed do # eiusmod", "\"quoted\" and 'single'"]), None))
     out.append((("str", "block-text"), "str", None, G.lit(None, "one line", "str", block=["one line"]), None))
+    # block text keeps the blanks at the end of its lines and lines made of blanks only
+    for lines in (["Title  ", "   ", "ID   NAME    ", "end"], ["  lead", "\ttab\t", "x "], ["a", "  "], ["  ", "a"],
+                  ["a", "", "b "], ["only "]):
+        out.append((("str", "block-text", "block-trailing-blanks"), "str", None,
+                    G.lit(None, "\n".join(lines), "str", block=list(lines)), None))
+    for name, ch in LINEBREAKERS:
+        lines = ["x%sy" % ch, "z"]
+        out.append((("str", "block-text", "linebreaker:" + name), "str", None,
+                    G.lit(None, "\n".join(lines), "str", block=lines), None))
+    # JSON accepts only the non-control ones inside array items
+    for name, ch in LINEBREAKERS:
+        if ord(ch) >= 0x20:
+            v = ["p%sq" % ch, "r"]
+            out.append((("str", "array", "quoted-single", "rank1", "linebreaker:" + name), "str", "[2]",
+                        G.lit("'[\"p%sq\", \"r\"]'" % ch, v, "array"), None))
+            out.append((("str", "array", "tight", "rank1", "linebreaker:" + name), "str", "[2]",
+                        G.lit("[\"p%sq\",\"r\"]" % ch, v, "array"), None))
     return out
 
 
@@ -480,10 +509,13 @@ def run_case(desc, sh=None, seen=None):
         return None
     prog, widths, pp, tags = made
     text = G.render(prog, widths, pp)
+    entry = desc.get("entry", "string")
+    if entry == "file" and "\r" in text:
+        return None           # not demanded: a file is read with universal newlines, a bare CR is a line end there
     if seen is not None:
-        if text in seen:
+        if (entry, text) in seen:
             return None
-        seen.add(text)
+        seen.add((entry, text))
     # self-check of the generator: AST parents == the statement's rule on the rendered indentation
     ind = G.layout(prog, widths, pp)
     if G.parents_by_indent_rule(prog, ind) != G.parents_by_depth(prog):
@@ -495,22 +527,23 @@ def run_case(desc, sh=None, seen=None):
     ndef = sum(1 for ln in prog if ln["k"] == "def") + sum(len(ln["cols"]) for ln in prog if ln["k"] == "table")
     if len(exp) != ndef:
         raise HarnessError("generator produced colliding paths: %r" % (desc,))
-    got = outcome(G.execute, [text])
+    got = outcome(G.execute, [text], entry=entry)
     rec = None
     if got[0] == "err":
         isolation.tables_restore()
         rec = failure(desc["sub"], dict(desc=desc, text=text), G.expected_view(exp), list(got),
-                      tags=tags, behaviour=G.error_class(got))
+                      tags=tags | {"entry:" + entry}, behaviour=G.error_class(got))
     else:
         diff = G.compare(exp, got[1])
         if diff:
             rec = failure(desc["sub"], dict(desc=desc, text=text), G.expected_view(exp), G.observed_view(got[1]),
-                          tags=tags, behaviour=diff)
+                          tags=tags | {"entry:" + entry}, behaviour=diff)
     if sh is not None:
         sh.evaluations += 1
         if exp:
             sh.nontrivial += 1
         sh.count("sub=" + desc["sub"])
+        sh.count("entry=" + entry)
         sh.count("outcome=" + ("ok" if rec is None else rec["behaviour"]))
         for t in ("dedent>=2", "dotted-name", "blank-line", "comment-line", "trailing-comment", "table", "array",
                   "block"):
@@ -609,12 +642,13 @@ def run_shard(desc):
         for d in _tree_descs(tier, k, n):
             run_case(d, sh, seen)
     elif kind == "lit":
-        for i in range(len(literals())):
-            if i % n == k:
-                run_case(dict(sub="literals", lit=i), sh, seen)
-        for i in range(len(table_literals())):
-            if i % n == k:
-                run_case(dict(sub="tables", tab=i), sh, seen)
+        for entry in ("string", "file"):          # both entry points: DIP.add_string and DIP.add_file
+            for i in range(len(literals())):
+                if i % n == k:
+                    run_case(dict(sub="literals", lit=i, entry=entry), sh, seen)
+            for i in range(len(table_literals())):
+                if i % n == k:
+                    run_case(dict(sub="tables", tab=i, entry=entry), sh, seen)
         # every literal form x every comment shape
         for i in range(len(literals())):
             if i % n == k:
@@ -632,6 +666,7 @@ def run_shard(desc):
             for b in sub:
                 run_case(dict(sub="pairs", a=a, b=b), sh, seen)
     isolation.tables_restore()
+    G.remove_scratch_file()
     return sh
 
 
@@ -639,12 +674,13 @@ def replay(rec):
     isolation.tables_restore()
     r = run_case(rec["case"]["desc"])
     isolation.tables_restore()
+    G.remove_scratch_file()
     return r
 
 
 def finish(total, tier, seed):
     h = total.hist
-    need = ["sub=trees", "sub=widths", "sub=layout", "sub=literals", "sub=tables", "sub=comments", "feature=dedent>=2",
+    need = ["sub=trees", "sub=widths", "sub=layout", "sub=literals", "sub=tables", "sub=comments", "entry=string", "entry=file", "feature=dedent>=2",
             "feature=dotted-name", "feature=blank-line", "feature=comment-line", "feature=trailing-comment",
             "feature=table", "feature=array", "feature=block"]
     missing = [k for k in need if not h.get(k)]
